@@ -72,6 +72,15 @@ fn binary_cases() -> &'static Vec<String> {
                 }
             }
         }
+        // an operation at the edge of the range at the head of a long flat chain (evaluators that fold long chains in a
+        // loop re-state the operators): 10 … 600 further terms
+        for head in ["@%(0-1)", "@/(0-1)", "@*(0-1)", "-@", "abs(@)", "@%(0-1)*1", "@-1", "@+1", "@*2/2", "(0-1)*@", "@%@", "@/@"] {
+            for n in [10usize, 100, 255, 256, 257, 300, 600] {
+                for tail in ["+1", "-1", "*1", "+0"] {
+                    v.push(format!("{}{}", head, tail.repeat(n)));
+                }
+            }
+        }
         // the same values spelled with redundant leading zeros (digit counters, fixed buffers): the value decides, not the text
         for z in [1usize, 2, 17, 18, 19, 20, 21, 30, 63, 64, 100, 200] {
             for d in ["0", "7", "42", "9223372036854775807", "9223372036854775808", "3037000500"] {
